@@ -234,11 +234,12 @@ type runLog struct {
 	stored   map[string]map[string]bool // key -> tokens ever stored under it
 	berrs    map[string][]error         // key -> injected backend errors
 	callouts map[string]int
+	resumes  map[string][]int // task -> steps at which the controller resumed it
 	problems []string // violations noticed on task goroutines (reported by the controller)
 }
 
 func newRunLog() *runLog {
-	return &runLog{inflight: map[string]int{}, stored: map[string]map[string]bool{}, berrs: map[string][]error{}, callouts: map[string]int{}}
+	return &runLog{inflight: map[string]int{}, stored: map[string]map[string]bool{}, berrs: map[string][]error{}, callouts: map[string]int{}, resumes: map[string][]int{}}
 }
 
 func (l *runLog) noteStored(key string, val interface{}) {
@@ -651,6 +652,7 @@ type getSpec struct {
 	otherKey  []byte
 	cancel    bool
 	cancelBefore bool // cancel the context before calling Get (C06)
+	deadline     bool // caller context carries a deadline
 
 	buf    []byte
 	ctx    context.Context
@@ -729,6 +731,13 @@ func (w *world) startGet(g *getSpec) {
 	w.log.mu.Unlock()
 
 	ctx, cancel := context.WithCancel(context.Background())
+	if g.deadline {
+		var cancelDeadline context.CancelFunc
+
+		ctx, cancelDeadline = context.WithDeadline(ctx, time.Now().Add(1000*time.Hour))
+		w.c.OnClose(0, cancelDeadline)
+	}
+
 	ctx = context.WithValue(ctx, taskKey{}, g.idx)
 	ctx = context.WithValue(ctx, userKey{}, fmt.Sprintf("user-%d", g.idx))
 
@@ -877,6 +886,12 @@ func (w *world) runSchedule(gets []*getSpec, o ctlOpts) bool {
 			if w.log.inflight[k] > 0 && (op.p == nil || op.p.point != "build") {
 				c.Class("step-while-build-in-flight")
 			}
+			w.log.mu.Unlock()
+		}
+
+		if op.p != nil {
+			w.log.mu.Lock()
+			w.log.resumes[op.p.task.name] = append(w.log.resumes[op.p.task.name], s.step)
 			w.log.mu.Unlock()
 		}
 
